@@ -133,6 +133,13 @@ func runCheck(prop, tier, repo, evdir string, verbose bool) int {
 		if c.Trusted && c.PkgPath == "" {
 			continue
 		}
+		if eng.FindFunc(key) == nil && !strings.Contains(key, ").") && strings.Contains(key, "/") {
+			// a second contract (environment view) for a function of ANOTHER package that this check did not load: nothing
+			// to resolve here; the check that selects it (with "ctx") loads that package and reports drift there
+			if k := strings.LastIndex(key, "."); k > 0 && c.PkgPath != key[:k] && eng.SPkgs[key[:k]] == nil {
+				continue
+			}
+		}
 		if eng.FindFunc(key) == nil && !strings.Contains(key, ").") {
 			fmt.Printf("TOOL-ERROR CONTRACT-DRIFT contract for unknown function %s (%s:%d)\n", key, c.File, c.Line)
 			return 2
@@ -245,8 +252,8 @@ func runCheck(prop, tier, repo, evdir string, verbose bool) int {
 			if ct := eng.contractFor(fn); ct != nil && ct.Trusted {
 				continue // assumed, listed as assumption wherever it is used
 			}
-			if fn.Synthetic != "" && !strings.Contains(fn.Synthetic, "instance") {
-				continue
+			if fn.Synthetic != "" && !strings.Contains(fn.Synthetic, "instance") && !(fn.Name() == "init" && eng.contractFor(fn) != nil) {
+				continue // wrappers, thunks, bound methods: not source code (the package initialiser is, when it has a contract)
 			}
 			if seen[n] {
 				continue
@@ -406,8 +413,22 @@ func runCheck(prop, tier, repo, evdir string, verbose bool) int {
 			assume[n] = true
 		}
 		if f.ContractErr != "" {
-			lines = append(lines, fmt.Sprintf("TOOL-ERROR CONTRACT-DRIFT %s: %s", f.Name, f.ContractErr))
-			drift = true
+			// A contract clause of a claimed function no longer resolves against the code of the current tree (a variable,
+			// field or call it mentions is gone): the obligations of this function cannot be generated, hence not discharged.
+			// The verifier does not accept the function; that is reported like any other undischarged obligation. (A contract
+			// whose FUNCTION is gone, or a tree that does not build, is a TOOL-ERROR: see above.)
+			name := f.Name + "#contract"
+			if kf := matchKnown(known, prop, name); kf != nil {
+				knownHit = append(knownHit, fmt.Sprintf("KNOWN-FINDING: property=%s %s", prop, kf.What))
+				continue
+			}
+			fmt.Printf("CONTRACT-DRIFT %s: %s\n", f.Name, f.ContractErr)
+			p := writeReplay(replayDir, name, map[string]interface{}{"obligation": name, "function": f.Name,
+				"reason": "the contract of this function does not resolve against the current source, so its obligations cannot be generated or discharged: " + f.ContractErr})
+			lines = append(lines, fmt.Sprintf("VIOLATION property=%s replay=%s no-failing-input-found", prop, p))
+			violations++
+			nOb++
+			obs = append(obs, obRec{Name: name, Kind: "contract", Func: f.Name, Status: "undecided", Text: f.ContractErr})
 			continue
 		}
 		if f.Unsupported != "" {
